@@ -302,6 +302,14 @@ func (its *PushPullHandler) pushOperations() errors.OrdaError {
 }
 
 func (its *PushPullHandler) processSubscribeOrCreate(code pushPullCase) errors.OrdaError {
+	if code == caseMatchKeyNotType {
+		// the key names a datatype of another type: it can neither be created again nor subscribed as this type
+		msg := fmt.Sprintf("%s is a %s", its.Key, its.datatypeDoc.Type)
+		if its.gotOption.HasCreateBit() {
+			return errors.PushPullDuplicateKey.New(its.ctx.L(), msg)
+		}
+		return errors.PushPullNoDatatypeToSubscribe.New(its.ctx.L(), msg)
+	}
 	if its.gotOption.HasSubscribeBit() && its.gotOption.HasCreateBit() {
 		switch code {
 		case caseMatchNothing:
